@@ -735,6 +735,14 @@ func (e *Env) call(x *ECall) Val {
 				if !e.x.emitted[key] {
 					e.x.emitted[key] = true
 					c.Assume(fact)
+					// strings.TrimRight(s, t) keeps a prefix whose last character is not in the cutset t
+					if _, ok := c.funs["str_trimright"]; ok && lit.V != "" {
+						rs := []rune(lit.V)
+						if !strings.ContainsRune(t, rs[len(rs)-1]) {
+							c.Assume(fmt.Sprintf("(forall ((s Str)) (! (=> (str_hasprefix s %s) (str_hasprefix (str_trimright s %s) %s)) :pattern ((str_hasprefix (str_trimright s %s) %s))))",
+								pv.S, e.x.strs[t], pv.S, e.x.strs[t], pv.S))
+						}
+					}
 				}
 			}
 		}
